@@ -48,7 +48,13 @@ def valid_strategy(versions):
         v = draw(st.sampled_from(versions))
         ap = draw(st.booleans())
         ann = draw(gen_hed.annotation(v, allow_placeholder=ap))
-        text = draw(gen_hed.render_spaced(ann["tree"])) if draw(st.booleans()) else gen_hed.render(ann["tree"])
+        how = draw(st.integers(0, 2))
+        if how == 0:
+            text = gen_hed.render(ann["tree"])
+        elif how == 1:
+            text = draw(gen_hed.render_spaced(ann["tree"]))
+        else:
+            _, text = draw(gen_hed.rewritten(ann["tree"], v))
         c = _case(ann, text)
         c["rich"] = any(t.get("kind") not in ("plain",) for t in gen_hed.flatten(ann["tree"]))
         return c
@@ -63,7 +69,12 @@ def mutated_strategy(versions):
         ap = draw(st.booleans())
         ann = draw(gen_hed.annotation(v, allow_placeholder=ap, max_depth=2))
         mut = draw(gen_hed.mutated(ann, start=start))
-        text = mut["text"] if mut["text"] is not None else gen_hed.render(mut["tree"])
+        if mut["text"] is not None:
+            text = mut["text"]
+        elif draw(st.booleans()):
+            _, text = draw(gen_hed.rewritten(mut["tree"], v))   # any valid spelling / order / spacing
+        else:
+            text = gen_hed.render(mut["tree"])
         return _case(ann, text, mut["expect"], mut["mutation"])
     return strat()
 
